@@ -6,7 +6,8 @@ Model: `Enc` = (delivered, buf, Tokens.Last, Tokens.Stack, OmitTopLevelNewline);
 opportunity whose capacity test is an adversarial Bool (`Sched.want`) and whose Write call is an adversarial
 `WAct` (accept all | accept n bytes and fail).
 -/
-import JsonV.Lemmas.FlushCycle
+import JsonV.Lemmas.FlushFull
+import JsonV.Lemmas.FlushDetect
 import JsonV.Gen.Constants
 import JsonV.Gen.Lits
 
@@ -335,41 +336,109 @@ theorem empty_detect_partial (pre sep ws1 name ws2 val : Bytes) (h2 : WsOnly ws2
 example : unwriteEmptyBytes [0x7b, 0x22, 0x61, 0x22, 0x3a, 0x22, 0x5c, 0x22, 0x22] =
     some ([0x7b, 0x22, 0x61, 0x22, 0x3a, 0x22, 0x5c, 0x22, 0x22], false) := by decide
 
+/-! ### flush independence with retractions at arbitrary positions
+
+`runD` is `run` under the calling discipline of arshal_default.go (Model/Flush.lean `stepD`): a call of
+UnwriteEmptyObjectMember is performed only directly after the accepted call that completed a member value.  All
+other features are unrestricted: the call may follow empty AND non-empty values (then it is a no-op), the value may
+be a container whose own members were retracted before (`"E":{` … `}` then `"E":{}` itself, to any depth),
+UnwriteOnlyObjectMemberName may be called at any moment, token calls may be rejected, and every call has its own
+adversarial flush decision and writer behaviour.  `SaneCall`: whitespace arguments are whitespace, string bodies have
+their quotes escaped, a literal/number is `null` or ends in a byte other than `l " { } [ ]`. -/
+
+/-- `flush_indep_full`: for every disciplined call sequence and every two schedules, `delivered ++ buf` and the token
+state are the same — an unwrite never needs bytes that were already delivered. -/
+theorem flush_indep_full (omitNL : Bool) (l₁ l₂ : List (Op × Sched)) (hops : l₁.map Prod.fst = l₂.map Prod.fst)
+    (hsane : ∀ p ∈ l₁, SaneCall p.1) :
+    (runD ({ omitNL := omitNL }, false) l₁).1.total = (runD ({ omitNL := omitNL }, false) l₂).1.total ∧
+    (runD ({ omitNL := omitNL }, false) l₁).1.last = (runD ({ omitNL := omitNL }, false) l₂).1.last ∧
+    (runD ({ omitNL := omitNL }, false) l₁).1.stack = (runD ({ omitNL := omitNL }, false) l₂).1.stack := by
+  have := (runD_sim l₁ l₂ _ _ (simD_init omitNL) hops hsane).sim
+  exact ⟨this.total, this.last, this.stack⟩
+
+/-- `short_write_nothing_lost`, with retractions: accepted ++ buffered is the fault-free stream. -/
+theorem short_write_nothing_lost_full (omitNL : Bool) (l : List (Op × Sched)) (hsane : ∀ p ∈ l, SaneCall p.1) :
+    (runD ({ omitNL := omitNL }, false) l).1.delivered ++ (runD ({ omitNL := omitNL }, false) l).1.buf =
+      (runD ({ omitNL := omitNL }, false) (faultFree l)).1.total :=
+  (flush_indep_full omitNL l (faultFree l) (by simp [faultFree, Function.comp_def]) hsane).1
+
+/-- `marshalWrite_prefix`, with retractions: whatever was retracted later, what the writer accepted is a prefix of the
+fault-free stream at that moment (retractions only ever touch `buf`). -/
+theorem marshalWrite_prefix_full (omitNL : Bool) (l : List (Op × Sched)) (hsane : ∀ p ∈ l, SaneCall p.1) :
+    (runD ({ omitNL := omitNL }, false) l).1.delivered <+: (runD ({ omitNL := omitNL }, false) (faultFree l)).1.total := by
+  rw [← short_write_nothing_lost_full omitNL l hsane]
+  exact List.prefix_append _ _
+
+theorem delivered_monotone_full (a : Enc × Bool) (l : List (Op × Sched)) : a.1.delivered <+: (runD a l).1.delivered :=
+  runD_delivered_prefix l a
+
+/-- The shape invariant (Lemmas/FlushShape.lean `InvS`: the bytes a later unwrite would scan are in `buf`, laid out
+as `[,] ws "name" : ws value`, recursively through just-opened containers) holds along every disciplined run. -/
+theorem shape_invariant (omitNL : Bool) (l : List (Op × Sched)) (hsane : ∀ p ∈ l, SaneCall p.1) :
+    InvS (runD ({ omitNL := omitNL }, false) l).1 (runD ({ omitNL := omitNL }, false) l).2 :=
+  runD_inv l _ (invS_init omitNL false) hsane
+
+-- non-trivial instance: `{"a":1` then `,"E":{` , `"X":[]` retracted, `}` , `"E":{}` retracted, `,"s":"x"` with a
+-- retraction attempt after the non-empty value, `}` — with a flush wanted after every call and a writer that takes
+-- 3 bytes per call, versus never flushing before the end: same stream `{"a":1,"s":"x"}\n`
+example :
+    let ops : List Op := [.tok .openObj [], .tok (.str [0x61]) [], .tok (.scalar [0x31]) [],
+      .tok (.str [0x45]) [], .tok .openObj [], .tok (.str [0x58]) [], .tok .openArr [], .tok .closeArr [], .unwriteEmpty,
+      .tok .closeObj [], .unwriteEmpty, .tok (.str [0x73]) [], .tok (.str [0x78]) [], .unwriteEmpty, .tok .closeObj []]
+    (runD ({}, false) (ops.map (fun o => (o, ⟨true, .fail 3⟩)))).1.total =
+      (runD ({}, false) (ops.map (fun o => (o, ⟨false, .ok⟩)))).1.total ∧
+    (runD ({}, false) (ops.map (fun o => (o, ⟨false, .ok⟩)))).1.delivered =
+      [0x7b, 0x22, 0x61, 0x22, 0x3a, 0x31, 0x2c, 0x22, 0x73, 0x22, 0x3a, 0x22, 0x78, 0x22, 0x7d, 0x0a] ∧
+    (runD ({}, false) (ops.map (fun o => (o, ⟨true, .fail 3⟩)))).1.delivered.length > 6 := by decide
+
+/-! ### empty_detect against the RFC 8259 grammar (Spec/Grammar.lean, slice C01) -/
+
+/-- `empty_detect_full`: after `[,] ws "name" : ws value` where the value is ANY JSON value of the grammar (any
+options, any depth, with interior whitespace or not), UnwriteEmptyObjectMember reports true exactly when the value
+is `null`, `""`, `{}` or `[]`. -/
+theorem empty_detect_full (o : Spec.Grammar.GOpts) (md : Nat) (key : Bytes → Bytes) (d : Nat)
+    (pre sep ws1 name ws2 val : Bytes) (h1 : WsOnly ws1) (h2 : WsOnly ws2) (hn : QuotesEscaped name)
+    (hs : MemberSep pre sep) (hv : Spec.Grammar.JValue o md key d val) :
+    (∃ r, unwriteEmptyBytes (pre ++ sep ++ ws1 ++ (0x22 :: name ++ [0x22]) ++ [0x3a] ++ ws2 ++ val) = some (r, true)) ↔
+      EmptyText val := by
+  constructor
+  · rintro ⟨r, hr⟩
+    have hne := emptyLenR_of_unwrite_true hr
+    rw [List.reverse_append] at hne
+    exact emptyText_of_jvalue hv _ hne
+  · intro he
+    exact ⟨pre, empty_detect_partial pre sep ws1 name ws2 val h2 h1 hn hs he⟩
+
+-- hypotheses satisfiable with a non-empty value: after `{"a":1` nothing is retracted
+example : ¬ ∃ r, unwriteEmptyBytes (([0x7b] : Bytes) ++ [] ++ [] ++ (0x22 :: [0x61] ++ [0x22]) ++ [0x3a] ++ [] ++ [0x31]) = some (r, true) := by
+  have hv : Spec.Grammar.JValue ⟨true, false⟩ 10000 id 1 [0x31] :=
+    Spec.Grammar.JValue.num 1 [0x31] (Spec.Grammar.JNumber.mk [] [0x31] [] [] (Or.inl rfl)
+      (Spec.Grammar.JInt.nonzero 0x31 [] (by unfold Spec.Grammar.Digit19; decide) (by intro c hc; cases hc)) Spec.Grammar.JFrac.none Spec.Grammar.JExp.none)
+  rw [empty_detect_full ⟨true, false⟩ 10000 id 1 [0x7b] [] [] [0x61] [] [0x31] (by intro c hc; cases hc) (by intro c hc; cases hc)
+    (by intro l1 l2 e; cases l1 <;> simp at e)
+    (MemberSep.first [] 0x7b (by decide) (by decide) (by decide)) hv]
+  intro h; cases h
+
+/-- The classification behind it, in terms of avoidFlush's two-byte test: a JSON value ending in `ll`, `""`, `{}`,
+`[]` is one of the four empty encodings or a string ending in an escaped quote (`…\""`), which is what the code's
+extra backslash test is for. -/
+theorem jvalue_ends_classification (o : Spec.Grammar.GOpts) (md : Nat) (key : Bytes → Bytes) (d : Nat) (v : Bytes)
+    (hv : Spec.Grammar.JValue o md key d v) (he : endsEmptyR v.reverse = true) :
+    EmptyText v ∨ ∃ q, v = q ++ [0x5c, 0x22, 0x22] :=
+  JsonV.Model.Flush.jvalue_ends_classification hv he
+
+-- the second alternative is real: the JSON string `"\""` (one escaped quote) ends in `""`
+example : endsEmptyR ([0x22, 0x5c, 0x22, 0x22] : Bytes).reverse = true ∧ ¬ EmptyText [0x22, 0x5c, 0x22, 0x22] := by
+  refine ⟨by decide, ?_⟩
+  intro h; cases h
+
 /-! ### full statements that are not proved (validated by the harness only) -/
 
-/-- Token texts as the encoder produces them: whitespace is whitespace, string bodies have their quotes escaped,
-a literal/number is `null` or ends in a byte other than `l " { } [ ]`. -/
-def SaneOp : Op → Prop
-  | .tok (.scalar t) ws => WsOnly ws ∧ (t = [0x6e, 0x75, 0x6c, 0x6c] ∨
-      ∃ p c, t = p ++ [c] ∧ c ≠ 0x6c ∧ c ≠ 0x22 ∧ c ≠ 0x7b ∧ c ≠ 0x7d ∧ c ≠ 0x5b ∧ c ≠ 0x5d ∧ isWs c = false)
-  | .tok (.str b) ws => WsOnly ws ∧ QuotesEscaped b
-  | .tok _ ws => WsOnly ws
-  | _ => True
-
-/-- The calling discipline of arshal_default.go: UnwriteEmptyObjectMember only directly after the call that
-completed a member value, UnwriteOnlyObjectMemberName only directly after the call that wrote a name. -/
-def Disciplined : List Op → Prop
-  | [] => True
-  | [a] => SaneOp a
-  | a :: b :: r => SaneOp a ∧
-      (b = .unwriteEmpty → ∃ t ws, a = .tok t ws ∧ t ≠ .openObj ∧ t ≠ .openArr) ∧
-      (b = .unwriteName → ∃ n ws, a = .tok (.str n) ws) ∧ Disciplined (b :: r)
-
-/-- `flush_indep` for ALL disciplined call sequences: UnwriteEmptyObjectMember after empty AND non-empty values,
-nested retractions (`"E":{}` whose own members were retracted), UnwriteOnlyObjectMemberName anywhere after a
-first name.  Proved above: token-only sequences (`flush_indep`) and exact restoration by every omitempty cycle
-over a directly empty value from every reachable state (`unwrite_local`, `unwrite_name_local`, `inv_run`). -/
-def flush_indep_full : Prop :=
-  ∀ (omitNL : Bool) (l₁ l₂ : List (Op × Sched)), l₁.map Prod.fst = l₂.map Prod.fst →
-    Disciplined (l₁.map Prod.fst) → (l₁.head?.map Prod.fst ≠ some .unwriteEmpty) → (l₁.head?.map Prod.fst ≠ some .unwriteName) →
+/-- Beyond the calling discipline: UnwriteEmptyObjectMember called at moments where the marshalers never call it
+(twice in a row, or after a rejected call), on the undisciplined `run`.  `flush_indep_full` above covers every
+sequence in which the call directly follows the accepted call that completed the member value. -/
+def flush_indep_undisciplined_full : Prop :=
+  ∀ (omitNL : Bool) (l₁ l₂ : List (Op × Sched)), l₁.map Prod.fst = l₂.map Prod.fst → (∀ p ∈ l₁, SaneCall p.1) →
     (run { omitNL := omitNL } l₁).total = (run { omitNL := omitNL } l₂).total
-
-/-- `empty_detect`: after `name : value` for a well-formed JSON value (`JValue`, the grammar of another slice),
-UnwriteEmptyObjectMember reports true exactly when the value is `null`, `""`, `{}` or `[]`.
-Proved above: the "if" direction (`empty_detect_partial`). -/
-def empty_detect_full (JValue : Bytes → Prop) : Prop :=
-  ∀ (pre sep ws1 name ws2 val : Bytes), WsOnly ws1 → WsOnly ws2 → QuotesEscaped name → MemberSep pre sep → JValue val →
-    ((∃ r, unwriteEmptyBytes (pre ++ sep ++ ws1 ++ (0x22 :: name ++ [0x22]) ++ [0x3a] ++ ws2 ++ val) = some (r, true)) ↔
-      EmptyText val)
 
 end JsonV.Props.C07
